@@ -355,7 +355,7 @@ META = {
                            "combinations in O2"},
     "outside": ["fragmented messages (the statement is about single-frame messages)", "clock increments that vary within one run",
                 "the exact boundary: an acknowledgement arriving within two ticks of the deadline may go either way",
-                "more than one failure per message in the co-simulation; trees other than the co-simulated one (the per-node steps cover all addresses)"],
+                "schedules of the co-simulation other than the cooperative one and 2**K hold-back schedules (K = 4 quick / 6 thorough, each a few SPI transactions late)", "more than one failure per message in the co-simulation; trees other than the co-simulated one (the per-node steps cover all addresses)"],
     "assumptions": ["a frame can only be received while the radio listens (an injection at a look where it does not is lost)",
                     "one outcome per transmitted packet; virtual clock with a constant symbolic tick"],
 }
